@@ -290,9 +290,10 @@ class Prover:
     return r
 
   # ----------------------------------------------------------------- helpers
-  def equal(self, name, A, B, assume=(), split=(), kind='core', timeout_s=None, note=''):
-    """all entries of A equal the corresponding entries of B"""
-    diffs = differing(A, B)
+  def equal(self, name, A, B, assume=(), split=(), kind='core', timeout_s=None, note='', force=False):
+    """all entries of A equal the corresponding entries of B (force: hand even literally
+    identical terms to the solver)"""
+    diffs = differing(A, B, keep_identical=force)
     if diffs is None:
       res = Result(name=name, status='sat', cases=0, queries=0, solver_s=0.0, kind=kind,
                    note='shape / constant mismatch', model=None)
@@ -311,7 +312,7 @@ def _decided(s, atom, prover):
   return False
 
 
-def differing(A, B):
+def differing(A, B, keep_identical=False):
   """list of (a, b) z3 pairs that are not syntactically identical; None if a
   concrete mismatch makes equality impossible"""
   A = np.asarray(A, dtype=object)
@@ -332,11 +333,12 @@ def differing(A, B):
         return None
       continue
     a2, b2 = R._pair(a, b)
-    if a2.eq(b2):
-      continue
-    d = z3.simplify(a2 == b2)
-    if z3.is_true(d):
-      continue
+    if not keep_identical:
+      if a2.eq(b2):
+        continue
+      d = z3.simplify(a2 == b2)
+      if z3.is_true(d):
+        continue
     out.append((a2, b2))
   return out
 
